@@ -15,7 +15,7 @@ RULE = ('every rule of app.url_map under /v1/peer/ x {GET,HEAD,POST,PUT,DELETE,P
         'malformed header, empty password, valid} x a representative world per reachable (state, protocol present, stopped) class; invalid '
         'credentials must give 401 and leave wire tap, connectors and the whole world fingerprint (statistics, RIBs, versions, capabilities) '
         'unchanged; send endpoints outside Established must write nothing and not report success; successful sends (C06/C07 message '
-        'spaces as JSON, route-refresh for advertised and other families, bin_update) must put exactly the requested frame on the current '
+        'spaces as JSON incl. requests mixing IPv4 prefixes with an MP attribute, route-refresh for advertised and other families, bin_update) must put exactly the requested frame on the current '
         'connection; distinct = distinct (rule, method, credential case, state) and distinct sent messages')
 ASSUMPTIONS = ['one REST request = one atomic event between reactor callbacks (Flask test client)', 'reference encoder vlib/refenc.py for the IPv4 unicast comparison']
 SHARD_TIMEOUT = {'quick': 400, 'thorough': 2400}
